@@ -133,7 +133,24 @@ func (rn *runner) replay(path string) {
 				if rec == nil {
 					panic("replay: hist step on unknown record")
 				}
-				if op == "S" {
+				if op == "E" {
+					np, _ := strconv.Atoi(s.next())
+					var path []int
+					for ; np > 0; np-- {
+						x, _ := strconv.Atoi(s.next())
+						path = append(path, x)
+					}
+					newid, _ := strconv.Atoi(s.next())
+					rs := rn.regOf[rec.tn]
+					method, ret := "Me", rs
+					if len(path) == 1 && rs != nil && path[0] < len(rs.fields) {
+						method = "Get" + rs.fields[path[0]].name
+						ret = rn.u.structs[rs.fields[path[0]].ty[2:]]
+					}
+					nr := &rnode{id: newid, tn: ret.reg}
+					s.defs[newid] = nr
+					steps = append(steps, hstep{op: 'E', rec: rec, path: path, method: method, newRec: nr})
+				} else if op == "S" {
 					key := s.next()
 					steps = append(steps, hstep{op: 'S', rec: rec, key: key, v: s.value()})
 				} else {
